@@ -40,10 +40,11 @@ OK(av, at, pd, cn, pk) ==
     /\ ~(pk /\ Quiet(pd) /\ (pd[0].op = "Done" \/ \E w \in at : w \in av))        \* no lost wake-up
 Post == OK(a', att', pend', cons', parkedv')
 
-\* fresh sleeper and wakers; pre: wakers 1..nw already attached
-MStart(nw, pre) == /\ a = {} /\ pend = [p \in P |-> None] /\ cons = [w \in WK |-> 0] /\ comp = {} /\ parkedv = FALSE /\ doneRet = FALSE
-                   /\ att = IF pre THEN 1..nw ELSE {}
-MReset(ev) == /\ a' = {} /\ pend' = [p \in P |-> None] /\ cons' = [w \in WK |-> 0] /\ comp' = {} /\ parkedv' = FALSE /\ doneRet' = FALSE
+\* fresh sleeper and wakers; pre: wakers 1..nw already attached; q: wakers 1..q asserted by completed Asserts
+MStart(nw, pre, q) == /\ a = 1..q /\ pend = [p \in P |-> None] /\ cons = [w \in WK |-> 0] /\ comp = 1..q /\ parkedv = FALSE /\ doneRet = FALSE
+                      /\ att = IF pre THEN 1..nw ELSE {}
+MReset(ev) == /\ a' = 1..ev.preq /\ pend' = [p \in P |-> None] /\ cons' = [w \in WK |-> 0] /\ comp' = 1..ev.preq
+              /\ parkedv' = FALSE /\ doneRet' = FALSE
               /\ att' = IF ev.pre THEN 1..ev.nw ELSE {}
 
 MCall(ev) == /\ LET p == ev.p  op == ev.op
@@ -89,6 +90,16 @@ MRet(ev) == /\ LET p == ev.p  c == pend[ev.p] IN
                /\ comp' = IF c.op = "Assert" /\ c.w \in a THEN comp \cup {c.w} ELSE comp   \* a completed assertion
             /\ UNCHANGED <<a, parkedv>>
             /\ Post
+
+\* The watchdog of the driver: the call of goroutine ev.p has not come back (no next gate, no return) long after
+\* it was given the step.  C19 lets a call stay away only by SLEEPING, only in a blocking Fetch / Done, and only
+\* while no completed assertion obliges it to return (Post: the lost wake-up clause with parked = TRUE).  A call
+\* that spins (ev.state = "spinning"), or any other call that does not return, never returns: rejected.
+MStuck(ev) == /\ ev.state = "parked"
+              /\ pend[ev.p].op # "none" /\ pend[ev.p].block
+              /\ parkedv' = TRUE
+              /\ UNCHANGED <<a, att, pend, cons, comp, doneRet>>
+              /\ Post
 
 \* entry of `new`: <<w, id, ok, id2, ok2>> = two Asserts of w then two non-blocking fetches on the new sleeper
 MReattach(ev) == /\ doneRet /\ \A p \in P : pend[p] = None
